@@ -241,3 +241,88 @@ SOLVER_ROLE = ('c06_pformat_width decides data (the width is an unbounded solver
                'other two certify coverage (config_str stringifies everything, so leaves are concrete)')
 OUTSIDE = ('catalogue values only; dynamic registration (C19 harness); the combination "any width = a pprint layout covered by '
            'the lemma inside one of the two wrappers covered by c06_width" is an argument, not a single solver verdict')
+
+
+# ---- dynamic registration ------------------------------------------------------------------------
+import os as _os
+import sys as _sys
+_sys.path.insert(0, _os.path.join(_os.path.dirname(_os.path.dirname(_os.path.dirname(
+    _os.path.abspath(__file__)))), 'fixtures'))
+
+DCAT = [
+    [('text', 'from __gin__ import dynamic_registration\nimport vfx.alpha.mod as am\nam.fn.x = 1\n')],
+    [('text', 'from __gin__ import dynamic_registration\nfrom vfx.beta import mod as bm\nbm.fn.x = [2, @bm.Cls()]\n')],
+    [('bind', 'vfx.zeta.zfn.x', 3)],                      # statically registered, module not imported by any file
+    [('bind', 'vfx.gamma.gfn.x', 4)],
+    [('bind', 's/vfx.zeta.ZCls.x', 5)],
+    [('text', 'from __gin__ import dynamic_registration\nimport vfx.alpha.mod\nvfx.alpha.mod.Cls.meth.m = 6\n')],
+    [('text', 'from __gin__ import dynamic_registration\nfrom vfx.alpha import mod\nmod.Outer.Inner.y = @mod.fn\n')],
+]
+ND = len(DCAT)
+
+
+def _dapply(items, order):
+  from vf.harness import c19
+  import vfx.gamma, vfx.zeta   # registers the decorated configurables
+  world.fresh()
+  c19.cleanup_vfx()
+  gin.parse_config('from __gin__ import dynamic_registration\n')
+  for i in order:
+    for act in DCAT[items[i]]:
+      if act[0] == 'text':
+        gin.parse_config(act[1])
+      else:
+        gin.bind_parameter(act[1], act[2])
+
+
+def c06_dynamic(d0: bool, d1: bool, d2: bool, d3: bool, d4: bool, d5: bool, d6: bool, perm: int) -> bool:
+  """
+  pre: 0 <= perm < 3
+  """
+  from vf.harness import c19
+  bits = [rt.flag(b) for b in (d0, d1, d2, d3, d4, d5, d6)]
+  perm = rt.pick(perm, 3)
+  items = [i for i in range(ND) if bits[i]]
+  with rt.native():
+    rt.sig(('dynamic', tuple(items), perm), nontrivial=len(items) >= 2)
+    if not items:
+      return True
+    order0 = list(range(len(items)))
+    orders = [order0, order0[::-1], order0[1:] + order0[:1]]
+    try:
+      _dapply(items, orders[perm])
+      text = gin.config_str()
+      _dapply(items, order0)
+      if gin.config_str() != text:
+        return rt.no('binding order changes the text:\n%s\n---\n%s' % (text, gin.config_str()))
+      before = {k: dict(d) for k, d in gc._CONFIG.items()}
+      targets = {k: gc._REGISTRY[k[1]].wrapped for k in before}
+      # parse into a cleared configuration
+      gc._CONFIG.clear(); gc._CONFIG_PROVENANCE.clear(); gc._IMPORTS.clear()
+      try:
+        gin.parse_config(text)
+      except Exception as e:
+        return rt.no('config string does not parse: %r\n%s' % (e, text))
+      after = {k: dict(d) for k, d in gc._CONFIG.items()}
+      # every emitted selector resolves to the same Python object
+      got_targets = sorted((k[0], repr(gc._REGISTRY[k[1]].wrapped), tuple(sorted(d))) for k, d in after.items())
+      want_targets = sorted((k[0], repr(targets[k]), tuple(sorted(d))) for k, d in before.items())
+      if got_targets != want_targets:
+        return rt.no('objects configured after re-parse %r, before %r\n%s' % (got_targets, want_targets, text))
+      again = gin.config_str()
+      if again != text:
+        return rt.no('second serialisation differs:\n%s\n---\n%s' % (text, again))
+      return True
+    finally:
+      c19.cleanup_vfx()
+
+
+HARNESSES['c06_dynamic'] = dict(
+    fn='c06_dynamic',
+    anchors=['gin.config:_config_str', 'gin.config:require_configurable', 'gin.config:add_import'],
+    smoke=[dict(d0=True, d1=True, d2=True, d3=True, d4=False, d5=True, d6=False, perm=1)],
+    tiers={'quick': dict(split=dict(d0=[False, True], d1=[False, True], perm=[0, 1, 2]), budget_s=100),
+           'thorough': dict(split=dict(d0=[False, True], d1=[False, True], perm=[0, 1, 2]), budget_s=300)},
+    bounds='dynamic registration: every subset of a 7-item catalogue (text bindings through 4 import forms of two '
+           'fixture modules incl. a method and a nested class, references, and programmatic bindings of statically '
+           'registered configurables from two further modules that no file imports) in 3 binding orders')
